@@ -93,10 +93,10 @@ func accountCell(rng *rand.Rand, e accEntry) *boc.Cell {
 		return mk("0") // account_none$0
 	}
 	var sb strings.Builder
-	sb.WriteString("1")                                    // account$1
+	sb.WriteString("1")                                                    // account$1
 	sb.WriteString("10" + "0" + ubits(uint64(rng.Intn(2))*255, 8) + e.key) // addr_std$10, no anycast, workchain 0 or -1, address
-	sb.WriteString(varU7(uint64(rng.Intn(1 << uint(rng.Intn(20)))))) // storage_used: cells
-	sb.WriteString(varU7(uint64(rng.Intn(1 << uint(rng.Intn(30)))))) // bits
+	sb.WriteString(varU7(uint64(rng.Intn(1 << uint(rng.Intn(20))))))       // storage_used: cells
+	sb.WriteString(varU7(uint64(rng.Intn(1 << uint(rng.Intn(30))))))       // bits
 	frozen := rng.Intn(3) == 0
 	if !frozen && rng.Intn(3) == 0 {
 		sb.WriteString("001" + randBits(rng, 256)) // storage_extra_info$001 dict_hash
@@ -109,7 +109,7 @@ func accountCell(rng *rand.Rand, e accEntry) *boc.Cell {
 	} else {
 		sb.WriteString("0")
 	}
-	sb.WriteString(ubits(rng.Uint64(), 64)) // account_storage: last_trans_lt
+	sb.WriteString(ubits(rng.Uint64(), 64))  // account_storage: last_trans_lt
 	sb.WriteString(gramsBits(e.grams) + "0") // balance
 	if frozen {
 		sb.WriteString("01" + randBits(rng, 256)) // account_frozen$01 state_hash
